@@ -1,1 +1,4 @@
-
+//! DWARF synthesis and read-back (gimli 0.32).  Never depends on walrus.
+pub fn minimal_sections(_wasm: &[u8]) -> Vec<(String, Vec<u8>)> {
+    vec![]
+}
